@@ -1,3 +1,4 @@
+import EV.Props.C01sync
 import EV.Props.C01run
 import EV.Proofs.IndexObs
 import EV.Proofs.IndexFlushUtxo
